@@ -10,8 +10,8 @@ namespace Vector {
 namespace BLF {
 
 EnvironmentVariable::EnvironmentVariable(/*const ObjectType objectType*/) :
-    ObjectHeader(ObjectType::UNKNOWN) {
-    /* can be one of:
+    ObjectHeader(ObjectType::ENV_INTEGER) {
+    /* objectType can be set to one of:
      *   - objectType = ObjectType::ENV_INTEGER;
      *   - objectType = ObjectType::ENV_DOUBLE;
      *   - objectType = ObjectType::ENV_STRING;
